@@ -446,6 +446,7 @@ def check(eng, res):
     res.doc("R-SHIFT", "other side's indices shifted by self's size read before the combination, for every descriptor, before the bond")
     res.doc("R-CONSUME", "both reacted descriptors deleted on every path after the bond; survivors appended once")
     res.doc("R-INDEX-SPACE", "at each attach_other call site both indices are computed on the very lists attach_other indexes")
+    res.doc("R-COMPAT-TABLE", "the predicate used by the guard and by partner selection is exactly the conjugation rule (C03, whole universe enumerated)")
     res.doc("R-LOCKSTEP", "Stochastic.__init__ extends bond_descriptors in lockstep with repeat_bonds / end_bonds (repeat first)")
     n, reach = bond_primitive(eng, res)
     res.floor("R-BOND-PRIMITIVE", n, 5)
@@ -457,6 +458,17 @@ def check(eng, res):
     consume(eng, res, A, pair)
     ns = index_space(eng, res)
     res.floor("R-INDEX-SPACE", ns, 3)
+    # "compatible" in R-COMPAT-DOM means the conjugation rule: decided exhaustively by C03's table
+    from . import c03
+
+    sub = type(res)(res.prop)
+    try:
+        c03.check(eng, sub)
+        for o in sub.obligations:
+            if o.rule in ("R-COMPAT-TABLE", "R-COMPAT-READSET", "R-COMPAT-UNIQUE"):
+                res.obligations.append(o)
+    except AnalysisError as exc:
+        res.ob("R-COMPAT-TABLE", "bond.BondDescriptor.is_compatible", "evaluable", "the guard's predicate is the conjugation rule", "-", False, str(exc))
     nl = lockstep(eng, res)
     res.floor("R-LOCKSTEP", nl, 2)
     res.assumptions += ["RDKit AddBond adds exactly one bond of the given order between the given atom indices; CombineMols keeps self's atom indices and appends other's"]
